@@ -568,6 +568,19 @@ def c19(ctx):
     ctx.stream("wide-exponent-core-dbg", wide, spec_mode="prog", profile="dbg", nontrivial=lambda t: True)
     # (a chunk that is still running after chunk_timeout is killed and its unanswered lines are re-run one by one under per_line_timeout)
     pl = gen.pad_lines(rng, lines[:: tiers(ctx, 6, 3)])
+    # integer-valued operands whose significand carries many leading zero words, through every unary consumer
+    for (E, P) in [(11, 53), (15, 113), (19, 237), (8, 24), (12, 70), (15, 64)]:
+        for m in ("E", "Z"):
+            s = Sem(E, P, m)
+            for e in (P - 1, P, P + 2, P + 70, 0, 5):
+                for mant in (2 ** (P - 1) + 12345 % (2 ** (P - 1)), 2 ** P - 1, 2 ** (P - 1)):
+                    if e > s.emax:
+                        continue
+                    tok = "%s~%d" % (ftok("N", rng.randrange(2), e, mant), (P + 63) // 64 + rng.choice([5, 6, 10, 11, 17]))
+                    for op in ("disp", "toi64", "trunc", "round", "sqrt", "abs"):
+                        pl.append("%s %s %s" % (op, s, tok))
+                    pl.append("frac %s %d %s" % (s, rng.choice([1, 3]), tok))
+            pl.append("frombig %s %x~%d" % (s, 2 ** 52 + 12345, rng.choice([7, 11, 12])))
     ctx.stream("padded-release", pl, spec_mode="total", nontrivial=lambda t: True, chunk_timeout=tiers(ctx, 240, 900), per_line_timeout=tiers(ctx, 5.0, 30.0))
     ctx.stream("padded-dbg", pl, spec_mode="total", profile="dbg", nontrivial=lambda t: True, chunk_timeout=tiers(ctx, 480, 1800), per_line_timeout=tiers(ctx, 10.0, 60.0))
     ctx.stream("extremes-release", lines, spec_mode="total", nontrivial=lambda t: True, chunk_timeout=tiers(ctx, 240, 900), per_line_timeout=tmo)
